@@ -430,6 +430,18 @@ def match_known(known, pid, op, result, verdict, flavour=None):
             continue
         if "verdict" in k and not re.search(k["verdict"], verdict):
             continue
+        if k.get("predicate") == "compose3_nonstandard":
+            try:
+                tk = [t for t in op.split(" ") if not t.startswith("@")]
+                m1, n1 = int(tk[3]), int(tk[4])
+                p2 = 5 + m1 * n1
+                m2, n2 = int(tk[p2]), int(tk[p2 + 1])
+                sp = [int(x) for x in tk[p2 + 2 + m2 * n2: p2 + 2 + m2 * n2 + 10]]
+                standard = (len(sp) == 10 and sp[0] == m1 - 2 and sp[1] == m1 - 1 and sp[4] == n1 - 1 and sp[5] == 0 and sp[8] == 0 and sp[9] == 1)
+            except (ValueError, IndexError):
+                continue
+            if standard:
+                continue
         if "mask_clear_any" in k or "mask_set_any" in k:
             toks = [t for t in op.split(" ") if not t.startswith("@")]
             try:
